@@ -372,9 +372,27 @@ func runCorpus(vd, repo, id string) []map[string]any {
 				res["outcome"] = "skipped: no longer applies"
 				return
 			}
-			cmd := exec.Command(exe, "check", id, "--tier", "quick", "--repo", scratch, "--out", filepath.Join(tmp, "ev"), "-q")
-			cmd.Env = append(os.Environ(), "VERIF_DIR="+vd, "VERIF_TIER=quick")
-			out, _ := cmd.CombinedOutput()
+			// the analysis of the copy runs in a child process; on a loaded machine the child can be killed or its
+			// package load can fail for lack of memory: an analysis that did not print its summary line, or could
+			// not load the copy, is repeated once before anything is concluded from it (a completed analysis has
+			// written its evidence file)
+			var out []byte
+			completed := false
+			for attempt := 0; attempt < 2; attempt++ {
+				cmd := exec.Command(exe, "check", id, "--tier", "quick", "--repo", scratch, "--out", filepath.Join(tmp, "ev"), "-q")
+				cmd.Env = append(os.Environ(), "VERIF_DIR="+vd, "VERIF_TIER=quick")
+				evFile := filepath.Join(tmp, "ev", id+".json")
+				os.Remove(evFile)
+				out, _ = cmd.CombinedOutput()
+				if _, err := os.Stat(evFile); err == nil {
+					completed = true
+					break
+				}
+			}
+			if !completed && !strings.Contains(string(out), "kind=unanalysable") {
+				res["outcome"] = "error: the analysis of the copy did not complete"
+				return
+			}
 			var rules []string
 			seen := map[string]bool{}
 			for _, l := range strings.Split(string(out), "\n") {
